@@ -147,6 +147,13 @@ def lru_space(tier):
                     # prediction purges what the model knows to be past its deadline)
                     k2 = dict(kw, A=2, D=kw["D"] - (0 if w == 0 else 1), **ex)
                     out.append(seqjob(name("lru", k2), **k2))
+    # the concurrent cache in the housekeeping regime in which every call runs the pending
+    # maintenance BEFORE it queues its own op (an invalidate then finds its key's nodes
+    # still linked, a purge finds a key that is no longer in the map), with expiry and a
+    # moving clock; sync() after every op as above
+    for cap, ex in itertools.product([2, 3], (dict(ttl=2), dict(tti=2), dict(ttl=3, tti=2))):
+        kw = dict(dict(kind="S", cap=cap, w=0, hash="spread", alpha="lru", lru=1, keys=4, D=7 if thorough else 6, A=2, Q=0, autosync=2, beyond=0, tick=200), **ex)
+        out.append(seqjob(name("lruwithin", kw), **kw))
     # the concurrent cache WITHOUT maintenance after every op: whole maintenance passes
     # over several queued reads and writes, predicted from the queues they find
     # (housekeeping regime "beyond": only sync() runs a pass)
@@ -231,6 +238,10 @@ def c08_space(tier):
         out += asan
     for cap in (0, 1, 2, 3, 5):
         out.append({"id": "sketch-tiling-%d" % cap, "argv": ["sketchx", str(cap), "tiling", "3", "40" if not thorough else "90"]})
+    # long increment histories on large tables incl. hashes at the ends of the index
+    # arithmetic (an overflow there is a panic)
+    for cap in (5000, 70000):
+        out.append({"id": "sketch-aging-big-%d" % cap, "argv": ["sketchbig", str(cap)]})
     return out
 
 
@@ -319,8 +330,11 @@ def scripted(kinds=("U", "S")):
             out.append({"id": "long-warm-%s-%d-%s" % (kind, cap, h), "argv": ["longrun", spec(kind=kind, cap=cap, w=0, hash=h, keys=3, lru=1, autosync=1 if kind == "S" else 0, A=0), "warm", "250"]})
     # the victim walk of an admission contest across leftovers of invalidated keys
     # (sync cache, ops stay queued until sync())
-    for pat, n in (("staleskips5", 8), ("staleskips5", 6), ("staleskips33", 8), ("staleskips33", 10)):
-        out.append({"id": "long-%s-%d" % (pat, n), "argv": ["longrun", spec(kind="S", cap=n, w=1, keys=3, lru=1, autosync=0, beyond=1, tick=1000, A=0), pat, str(n)]})
+    for pat, n in (("staleskips5", 8), ("staleskips5", 6), ("staleskips33", 8), ("staleskips33", 10), ("staleskips-rej", 8), ("staleskips-rej", 11)):
+        out.append({"id": "long-%s-%d" % (pat, n), "argv": ["longrun", spec(kind="S", cap=(n - 3) if pat.endswith("rej") else n, w=1, keys=3, lru=1, autosync=0, beyond=1, tick=1000, A=0), pat, str(n)]})
+    # weigher + ttl + capacity, every call runs the pending maintenance first (n = ttl in ticks)
+    out.append({"id": "long-worotate", "argv": ["longrun", spec(kind="S", cap=10, w=1, ttl=50, keys=3, autosync=0, beyond=0, tick=100, A=9), "worotate", "50"]})
+    out.append({"id": "long-worotate-tti", "argv": ["longrun", spec(kind="S", cap=10, w=1, ttl=50, tti=60, keys=3, autosync=0, beyond=0, tick=100, A=9), "worotate", "50"]})
     out.append({"id": "long-warm-S-batched", "argv": ["longrun", spec(kind="S", cap=4, w=0, keys=3, lru=1, autosync=0, beyond=1, tick=1000, A=0), "warm", "250"]})
     return out
 
@@ -335,6 +349,23 @@ def from_full(prop, tier):
             for rg in (regimes() if kind == "S" else [dict()]):
                 kw = dict(kind=kind, cap=cap, w=1, alpha="weights", keys=3, D=(6 if thorough else 5) if kind == "S" else (7 if thorough else 5), Q=2, A=0, pre=p, **rg)
                 out.append({"id": name("full-" + prop.lower(), {k: v for k, v in kw.items() if k != "pre"}) + "-" + pre.replace(":", "").replace("+", "_"), "argv": ["seqx", spec(**kw), "@JOURNAL@"]})
+    return out
+
+
+def staged_expiry(prop, tier):
+    """Searches started from a staged state: a full weighted cache in which one resident
+    has expired (not purged yet) while the least recently used one is alive - purge and
+    size eviction have to happen in the right order in the pass that follows."""
+    thorough = tier == "thorough"
+    out = []
+    for kind in ("U", "S"):
+        sy = "+sync" if kind == "S" else ""
+        # (a pass applies its reads before its writes: the hit of key 0 must come after
+        # the pass that admits keys 1 and 2, or it would not make key 0 the most recent)
+        pre = "ins:0:1" + sy + "+adv:1+ins:1:1+ins:2:1" + sy + "+get:0" + sy + "+adv:1"
+        for ex in (dict(ttl=2), dict(ttl=2, tti=3)):
+            kw = dict(dict(kind=kind, cap=3, w=1, alpha="weights", keys=3, D=4 if thorough else 3, Q=2, A=1, pre=pre, beyond=1, tick=1000), **ex)
+            out.append({"id": name("staged-" + prop.lower(), {k: v for k, v in kw.items() if k != "pre"}), "argv": ["seqx", spec(**kw), "@JOURNAL@"]})
     return out
 
 
@@ -363,6 +394,8 @@ def jobs_for(prop, tier):
         j = j + deep_narrow(tier, prop.lower())
     if prop in ("C03", "C05", "C06"):
         j = j + longdur_space(tier, prop.lower(), "basic" if prop == "C03" else "expiry")
+    if prop in ("C03", "C12", "C04", "C11"):
+        j = j + staged_expiry(prop, tier)
     if prop in ("C04", "C08", "C10", "C12", "C13"):
         j = j + bigw_space(tier)
     # scale scenarios with u32 keys (E1c): more evictions than one batch, more consecutive
@@ -406,6 +439,10 @@ def jobs_for(prop, tier):
         j = j + sched("c16", tier, b, 3)
     elif prop == "C04":
         j = j + sched("c04", tier, 2, 6) + [{"id": "overshoot", "argv": ["overshoot"]}] + nodebug(sched("c04", tier, 2, 6))
+        # a side effect inside a debug assertion exists in this build only: a few of the
+        # sequential spaces once more on the engine without the library's debug assertions
+        j = j + nodebug(c01_space(tier, caps=[1, 2], weighers=(1,), expiries=[dict()], with_collide=False, prefix="c04", alpha="c04",
+                                  dU=6 if thorough else 5, dS=6 if thorough else 5))
     elif prop in ("C03", "C08", "C10", "C11"):
         j = j + sched("c02", tier, 2, 16) + sched("c02w", tier, 2, 8) + sched("c02x", tier, 2, 4) + gen
         if prop == "C08":
